@@ -36,7 +36,7 @@ let err_str = function
   | EInvalidPath p -> "invalid_path:" ^ hex_of_str p
   | EExistPath -> "exist_path"
   | EVerify (ex, mi) ->
-      "verify:" ^ String.concat "," (List.map hex_of_str ex) ^ "/" ^ String.concat "," (List.map hex_of_str mi)
+      "verify:" ^ String.concat "," (List.sort compare (List.map hex_of_str ex)) ^ "/" ^ String.concat "," (List.sort compare (List.map hex_of_str mi))
   | EWriter -> "writer"
   | ECtx -> "ctx"
   | ENilNode -> "nil_node"
@@ -114,12 +114,32 @@ let handle line =
         | [("o" | "od"); e; d; n; ld; li; md; mi; exts; doc] ->
             PMdOutput ({ c_bf = bf_of ld li md mi; c_enc = enc_of e; c_dry = (d = "1"); c_exts = exts_plus exts; c_noiter = (n = "1") }, str_of_hex doc)
         | [("w" | "wd"); ld; li; md; mi; f; doc] -> PMdWalk (bf_of ld li md mi, opt_k f, str_of_hex doc)
+        | ["F"; es] ->
+            PFsInit (List.map (fun e -> match String.split_on_char ':' e with
+              | ["d"; p] -> (str_of_hex p, KDir)
+              | ["f"; p] -> (str_of_hex p, KFile false)
+              | ["e"; p] -> (str_of_hex p, KFile true)
+              | _ -> failwith "fsentry") (if es = "-" then [] else String.split_on_char '+' es))
+        | [("M" | "Md"); h; d; exts; dir; ld; li; md; mi] ->
+            PMkdir (opt_h h, { c_bf = bf_of ld li md mi; c_enc = EncDefault; c_dry = (d = "1"); c_exts = exts_plus exts; c_noiter = false }, str_of_hex dir)
+        | [("V" | "Vd"); h; st; dir] ->
+            PVerify (opt_h h, { c_bf = default_bfmt; c_enc = EncDefault; c_dry = false; c_exts = []; c_noiter = false }, st = "1", str_of_hex dir)
+        | [("m" | "md"); d; exts; dir; ld; li; md; mi; doc] ->
+            PMdMkdir ({ c_bf = bf_of ld li md mi; c_enc = EncDefault; c_dry = (d = "1"); c_exts = exts_plus exts; c_noiter = false }, str_of_hex dir, str_of_hex doc)
+        | [("v" | "vd"); st; dir; doc] ->
+            PMdVerify ({ c_bf = default_bfmt; c_enc = EncDefault; c_dry = false; c_exts = []; c_noiter = false }, st = "1", str_of_hex dir, str_of_hex doc)
         | _ -> failwith ("op " ^ o) in
       let outs = prun world0 (List.map parse_op (String.split_on_char ';' ops)) in
       String.concat "|" (List.map (function
         | OHandle h -> "h" ^ string_of_int (int_of_nat h)
         | OOutput (cs, r) -> res_str r ^ " " ^ chunks_str cs
         | OWalk (vs, r) -> res_str r ^ " " ^ (match vs with [] -> "-" | _ -> String.concat ";" (List.map visit_str vs))
+        | OFs (cs, r, f) ->
+            let ents = List.sort compare (List.map (fun (p, k) -> match k with
+              | KDir -> "d:" ^ hex_of_str p
+              | KFile true -> "e:" ^ hex_of_str p
+              | KFile false -> "f:" ^ hex_of_str p) f) in
+            res_str r ^ " " ^ chunks_str cs ^ " " ^ (match ents with [] -> "-" | _ -> String.concat "+" ents)
         | OBad -> "bad") outs)
   | ["specwalk"; ld; li; md; mi; items] ->
       let f = List.map trie_of (forest_of_items (items_of items) []) in
